@@ -286,6 +286,30 @@ class FV:
         """[(return node, resolved value term)]"""
         return [(n, self.res.resolve(n.ast.value, n.id)) for n in self.return_nodes()]
 
+    def template_arms(self, expr: ast.AST, at: int, depth: int = 0) -> Optional[List[Tuple[ast.AST, int]]]:
+        """The string templates an expression can denote: [(JoinedStr | str Constant, node where it is written)].
+        Follows local names through all their reaching definitions and conditional expressions; None if some
+        alternative is not a literal template."""
+        if isinstance(expr, ast.JoinedStr) or (isinstance(expr, ast.Constant) and isinstance(expr.value, str)):
+            return [(expr, at)]
+        if isinstance(expr, ast.IfExp):
+            a, b = self.template_arms(expr.body, at, depth + 1), self.template_arms(expr.orelse, at, depth + 1)
+            return None if a is None or b is None else a + b
+        if isinstance(expr, ast.Name) and depth < 6:
+            defs = sorted(self.cfg.reaching()[at].get(expr.id, ()))
+            out: List[Tuple[ast.AST, int]] = []
+            for d in defs:
+                dn = self.cfg.nodes[d]
+                if dn.kind == "stmt" and isinstance(dn.ast, ast.Assign) and len(dn.ast.targets) == 1 and isinstance(dn.ast.targets[0], ast.Name):
+                    arms = self.template_arms(dn.ast.value, d, depth + 1)
+                    if arms is None:
+                        return None
+                    out += arms
+                else:
+                    return None
+            return out or None
+        return None
+
     def template_returns(self) -> List["TemplateReturn"]:
         """Return statements whose value is (a temporary holding) an f-string template."""
         out = []
@@ -576,6 +600,9 @@ class Effects:
         p = const_prefix(arg)
         if p is not None:
             return [template_kind(p)]
+        arms = fv.template_arms(arg, at)
+        if arms:
+            return sorted({template_kind(const_prefix(a) or "") for a, _ in arms})
         term = fv.res.resolve(arg, at)
         p = const_prefix(term)
         if p is not None:
